@@ -55,8 +55,8 @@ Definition out_eres (r : eres Qc_OF) : res :=
   | E_ok xs => Ok (qn (length xs) :: concat xs)
   | E_guard => Err 1 | E_singular => Err 2 | E_stack => Err 3 | E_shape => Err 4 | E_internal => Err 5
   end.
-(* c09.coded   the estimator AS CODED.  zs = m :: n :: nseq :: datasets (see above)   qs = A ++ b ++ data
-   Ok (nseq :: x_1 ++ .. )  |  Err 1 guard raise | 2 singular A^T A behind a passing guard | 3 vstack | 4 shape | 5 internal *)
+(* c09.coded   the estimator AS CODED (after the repairs fullrank-guard-column-rank, linear-estimator-unequal-outcome-counts).  zs = m :: n :: nseq :: datasets (see above)   qs = A ++ b ++ data
+   Ok (nseq :: x_1 ++ .. )  |  Err 1 guard raise | 2 singular A^T A behind a passing guard (unreachable) | 3 hstack of no block | 4 shape | 5 internal *)
 Definition op_coded : opfun := fun zs qs =>
   match zs with
   | mz :: nz :: sz :: rest =>
